@@ -29,15 +29,27 @@ import (
 )
 
 const (
-	TTrue = 1; TFalse = 2; TByte = 3
-	TInt16 = 10; TInt32 = 11; TInt64 = 12
-	TUint16 = 20; TUint32 = 21; TUint64 = 22
-	TBin64 = 30; TBin128 = 31; TBin256 = 32
-	TFloat32 = 40; TFloat64 = 41
-	TBytes = 50; TString = 60
-	TList = 70; TBigList = 71
-	TMessage = 80; TBigMessage = 81
-	TStruct = 90
+	TTrue       = 1
+	TFalse      = 2
+	TByte       = 3
+	TInt16      = 10
+	TInt32      = 11
+	TInt64      = 12
+	TUint16     = 20
+	TUint32     = 21
+	TUint64     = 22
+	TBin64      = 30
+	TBin128     = 31
+	TBin256     = 32
+	TFloat32    = 40
+	TFloat64    = 41
+	TBytes      = 50
+	TString     = 60
+	TList       = 70
+	TBigList    = 71
+	TMessage    = 80
+	TBigMessage = 81
+	TStruct     = 90
 )
 
 // AppendRevVarint appends the reverse compact varint of v.
@@ -259,7 +271,7 @@ func Decode(b []byte) (*vg.Node, int, error) {
 		k := vg.KInt64
 		if t == TInt16 {
 			k = vg.KInt16
-			x = int64(int32(uint32(u>>1)))
+			x = int64(int32(uint32(u >> 1)))
 			if u&1 != 0 {
 				x = int64(^int32(uint32(u >> 1)))
 			}
